@@ -3,7 +3,9 @@
 package eng
 
 import (
+	_ "unsafe" // go:linkname
 	"fmt"
+	"runtime"
 	"runtime/debug"
 	"sort"
 	"strings"
@@ -179,3 +181,36 @@ func SortedKeys(m map[string]int64) []string {
 	sort.Strings(ks)
 	return ks
 }
+
+// FreshPools empties every sync.Pool of the process and keeps the collector
+// off otherwise, so that real sync.Pools only change at execution boundaries
+// (DESIGN §8, pool epochs). It calls the cleanup the runtime itself runs at
+// the start of a collection (sync.poolCleanup, twice: primary and victim
+// cache) - two full collections do the same but cost a millisecond each,
+// which engine dial would pay before every one of its bubbles. Only called
+// between executions, when nothing else runs. Collect reclaims memory.
+func FreshPools() {
+	if !gcOff {
+		gcOff = true
+		debug.SetGCPercent(-1)
+		// Safety net only: an execution that allocates without bound (a
+		// changed tree spinning in a loop) makes the collector run again near
+		// this limit instead of taking the machine down before the hang
+		// monitor fires.
+		debug.SetMemoryLimit(3 << 30)
+	}
+	syncPoolCleanup()
+	syncPoolCleanup()
+}
+
+// Collect runs one collection (memory only matters; callers empty the pools
+// with FreshPools at the same boundary).
+func Collect() {
+	runtime.GC()
+	FreshPools()
+}
+
+var gcOff bool
+
+//go:linkname syncPoolCleanup sync.poolCleanup
+func syncPoolCleanup()
